@@ -142,6 +142,19 @@ Proof.
   apply String.eqb_eq in E. subst. contradiction.
 Qed.
 
+Lemma nodupb_NoDup l : nodupb l = true <-> NoDup l.
+Proof.
+  induction l as [|x l IH]; simpl.
+  - split; [constructor|reflexivity].
+  - rewrite andb_true_iff, negb_true_iff, IH. split.
+    + intros [H1 H2]. constructor; [|assumption]. intros Hin.
+      assert (existsb (String.eqb x) l = true); [|congruence].
+      apply existsb_exists. exists x. split; [assumption|apply String.eqb_refl].
+    + intros H. inversion H; subst. split; [|assumption].
+      apply not_true_is_false. intros E. apply existsb_exists in E. destruct E as [y [Hy Exy]].
+      apply String.eqb_eq in Exy. subst. contradiction.
+Qed.
+
 (* ------------------------------------------------------------------ _replace_nans, per-column encoding *)
 Definition clip (c : Z) : Z := if (c <? 0)%Z then 0%Z else c.
 
@@ -225,6 +238,7 @@ Lemma fit_inv t train cs t' cb :
   fit t train cs = Some t' -> tf_cat train = Some cb ->
   exists y k prior,
     tf_y train = Some y /\ target_prior y = Some (k, prior) /\
+    NoDup (num_names train ++ gen_names (b_names cb) (k - 1)) /\
     t' = mktransform true
            (Some (mkfitted cs (block_rows cb) k prior (gen_names (b_names cb) (k - 1))))
            (Some (dict_keys (num_names train ++ gen_names (b_names cb) (k - 1)))).
@@ -233,8 +247,24 @@ Proof.
   unfold obind in H. destruct (replace_nans (b_cols cb)); [|discriminate].
   destruct (target_prior y) as [[k prior]|] eqn:Hp; [|discriminate].
   destruct (encode_cols _ _ _ _ _); [|discriminate].
+  fold (num_names train) in H.
+  destruct (nodupb (num_names train ++ gen_names (b_names cb) (k - 1))) eqn:Hnd; [|discriminate]. simpl in H.
   destruct (mapM _ _); [|discriminate]. inversion H; subst.
-  exists y, k, prior. split; [reflexivity|]. split; [exact Hp|reflexivity].
+  exists y, k, prior. split; [reflexivity|]. split; [exact Hp|]. split; [apply nodupb_NoDup; exact Hnd|reflexivity].
+Qed.
+
+(* a clash among the output column names makes fit raise *)
+Lemma fit_name_clash t train cs cb y k prior :
+  tf_cat train = Some cb -> tf_y train = Some y -> target_prior y = Some (k, prior) ->
+  ~ NoDup (num_names train ++ gen_names (b_names cb) (k - 1)) ->
+  fit t train cs = None.
+Proof.
+  intros Hc Hy Hp Hnd. unfold fit. rewrite Hy, Hc. unfold obind.
+  destruct (replace_nans (b_cols cb)); [|reflexivity]. rewrite Hp.
+  destruct (encode_cols _ _ _ _ _); [|reflexivity].
+  fold (num_names train).
+  destruct (nodupb (num_names train ++ gen_names (b_names cb) (k - 1))) eqn:E; [|reflexivity].
+  apply nodupb_NoDup in E. contradiction.
 Qed.
 
 (* ------------------------------------------------------------------ validate *)
@@ -333,7 +363,7 @@ Lemma call_spec train cs t tf cbt y k prior cb counts :
   call t tf = Some (transform_spec counts (block_rows cbt) k prior tf).
 Proof.
   intros Hfit Hct Hy Hp Hv Hc Hnames Hcounts Hnm Hseen.
-  destruct (fit_inv _ _ _ _ _ Hfit Hct) as (y' & k' & prior' & Hy' & Hp' & ->).
+  destruct (fit_inv _ _ _ _ _ Hfit Hct) as (y' & k' & prior' & Hy' & Hp' & Hnd' & ->).
   rewrite Hy in Hy'. inversion Hy'; subst y'. rewrite Hp in Hp'. inversion Hp'; subst k' prior'.
   destruct (target_prior_length _ _ _ Hp) as [Hlen Hk].
   unfold call, forward. simpl. unfold _forward. rewrite Hc. simpl. unfold obind.
@@ -508,13 +538,13 @@ Qed.
 Lemma keys_spec train cs t cbt y k prior :
   fit fresh train cs = Some t -> tf_cat train = Some cbt -> tf_y train = Some y ->
   target_prior y = Some (k, prior) ->
-  NoDup (num_names train ++ gen_names (b_names cbt) (k - 1)) ->
-  transformed_stats_keys t = Some (num_names train ++ gen_names (b_names cbt) (k - 1)).
+  transformed_stats_keys t = Some (num_names train ++ gen_names (b_names cbt) (k - 1)) /\
+  NoDup (num_names train ++ gen_names (b_names cbt) (k - 1)).
 Proof.
-  intros Hfit Hct Hy Hp Hnd.
-  destruct (fit_inv _ _ _ _ _ Hfit Hct) as (y' & k' & prior' & Hy' & Hp' & ->).
+  intros Hfit Hct Hy Hp.
+  destruct (fit_inv _ _ _ _ _ Hfit Hct) as (y' & k' & prior' & Hy' & Hp' & Hnd' & ->).
   rewrite Hy in Hy'. inversion Hy'; subst y'. rewrite Hp in Hp'. inversion Hp'; subst k' prior'.
-  unfold transformed_stats_keys. simpl. rewrite dict_keys_NoDup by assumption. reflexivity.
+  unfold transformed_stats_keys. simpl. rewrite dict_keys_NoDup by assumption. split; [reflexivity|assumption].
 Qed.
 
 Lemma names_are_keys train cs t tf cbt y k prior cb counts :
@@ -523,14 +553,13 @@ Lemma names_are_keys train cs t tf cbt y k prior cb counts :
   validate tf = Some tf -> tf_cat tf = Some cb -> b_names cb = b_names cbt -> num_names tf = num_names train ->
   Forall2 (fun name count => assoc name cs = Some count) (b_names cb) counts ->
   Forall has_nonmissing (b_cols cb) -> Forall2 all_seen counts (b_cols cb) ->
-  NoDup (num_names train ++ gen_names (b_names cbt) (k - 1)) ->
   exists out nb, call t tf = Some out /\ tf_num out = Some nb /\
                  transformed_stats_keys t = Some (b_names nb) /\ NoDup (b_names nb).
 Proof.
-  intros Hfit Hct Hy Hp Hv Hc Hn Hnn Hcounts Hnm Hseen Hnd.
+  intros Hfit Hct Hy Hp Hv Hc Hn Hnn Hcounts Hnm Hseen.
   eexists. eexists. split; [eapply call_spec; eauto|].
   unfold transform_spec. rewrite Hc. simpl. split; [reflexivity|].
-  rewrite Hnn, Hn. split; [eapply keys_spec; eauto|exact Hnd].
+  rewrite Hnn, Hn. eapply keys_spec; eauto.
 Qed.
 
 Lemma names_NoDup num cats w :
